@@ -432,6 +432,61 @@ func nullArgProducts() []struct{ q, vars string } {
 	return out
 }
 
+// 2-3 operations that share a fragment (directly or through a chain of fragments) in which a
+// variable is used, and that declare this variable with DIFFERENT types: rule 5.8.5 has to hold
+// for every operation that reaches the fragment, not only for the first one.  Each operation is
+// selected in turn, with values of each of the types; on the code as it is every such document is
+// refused whichever operation is asked for.
+func multiOpProducts() []struct{ q, vars, op string } {
+	var out []struct{ q, vars, op string }
+	uses := []struct{ use, ty string }{
+		{"i @skip(if:$v)", "Boolean!"}, {"i @include(if:$v)", "Boolean!"}, {"arg(x:$v)", "Int"}, {"inp(s:$v)", "String"},
+		{"inp(in:{a:$v})", "Int"}, {"inp(l:[[$v]])", "Int"}, {"def(b:$v)", "Boolean!"}, {"o{i @skip(if:$v)}", "Boolean!"}, {"inp(in:$v)", "In"},
+	}
+	// the other operation's type, with a use of the variable at that type written in the operation
+	// itself (otherwise the variable would be unused there, which is refused for another reason)
+	others := []struct{ ty, direct string }{{"String!", "d:inp(s:$v) "}, {"Int", "d:arg(x:$v) "}, {"Boolean", "d:def(b:$v) "}, {"In", "d:inp(in:$v) "}, {"[Boolean!]", ""}}
+	vals := []string{`{"v":true}`, `{"v":"yes"}`, `{"v":1}`, `{"v":[true]}`, `{}`}
+	for ui, u := range uses {
+		for oi, o := range others {
+			other := o.ty
+			if other == u.ty || strings.TrimSuffix(u.ty, "!") == other {
+				continue
+			}
+			frag := " fragment F on Query{" + u.use + "}"
+			docs := []string{
+				"query A($v:" + u.ty + "){...F} query B($v:" + other + "){" + o.direct + "...F}" + frag,
+				"query B($v:" + other + "){" + o.direct + "...F} query A($v:" + u.ty + "){...F}" + frag,
+			}
+			if (ui+oi)%3 == 0 {
+				docs = append(docs, "query A($v:"+u.ty+"){...F} query B($v:"+other+"){"+o.direct+"s ...G} query C($v:"+u.ty+"){...G}"+
+					" fragment F on Query{...G i} fragment G on Query{x:"+strings.Replace(u.use, "{i ", "{x:i ", 1)+"}")
+			}
+			for di, d := range docs {
+				for vi, v := range vals {
+					if di > 0 && (ui+oi+di+vi)%3 != 0 || di == 0 && ui > 3 && (ui+oi+vi)%2 == 1 {
+						continue // a third of the cross product for the reordered and the three-operation documents, half for the rarer usages
+					}
+					for _, op := range []string{"A", "B"} {
+						out = append(out, struct{ q, vars, op string }{d, v, op})
+					}
+					if di == 2 {
+						out = append(out, struct{ q, vars, op string }{d, v, "C"})
+					}
+				}
+			}
+		}
+	}
+	// the same variable name at the same type everywhere (accepted), and a fragment only one operation reaches
+	for _, v := range vals {
+		for _, op := range []string{"A", "B"} {
+			out = append(out, struct{ q, vars, op string }{"query A($v:Boolean!){...F} query B($v:Boolean!){inp(s:\"x\") ...F} fragment F on Query{i @skip(if:$v)}", v, op})
+			out = append(out, struct{ q, vars, op string }{"query A($v:Boolean!){...F} query B($v:String!){inp(s:$v)} fragment F on Query{i @skip(if:$v)}", v, op})
+		}
+	}
+	return out
+}
+
 // the same through API.ServeGraphQL, against apifu's own fields: connections (first / last / after /
 // before, atOrAfterTime / beforeTime are all nullable), node(id: ID!), nodes(ids: [ID!]!)
 func serveNullProducts() []struct{ q, vars string } {
@@ -583,6 +638,26 @@ func deep(kind string, n int) string {
 		return "{inp(l:[" + strings.Repeat("[1],", n) + "[2]])}"
 	case "inline":
 		return "{" + strings.Repeat("...{", n) + "i" + strings.Repeat("}", n) + "}"
+	case "ladder", "ladder-leaf":
+		// n fragments, each spreading the next one TWICE beneath the same response key (plus a third
+		// field of that key, with a selection set or — refused by 5.3.3, but the overlapping-fields
+		// pass still runs — without): 2^n paths, polynomial only because the pass remembers the
+		// pairs of fields it has compared
+		third := "o{i}"
+		if kind == "ladder-leaf" {
+			third = "o"
+		}
+		var b strings.Builder
+		b.WriteString("{...F0}")
+		for i := 0; i < n; i++ {
+			on := "Obj"
+			if i == 0 {
+				on = "Query"
+			}
+			fmt.Fprintf(&b, " fragment F%d on %s{o{...F%d} o{...F%d} %s}", i, on, i+1, i+1, third)
+		}
+		fmt.Fprintf(&b, " fragment F%d on Obj{i}", n)
+		return b.String()
 	case "unclosed":
 		return strings.Repeat("{o", n)
 	case "unclosedlist":
@@ -1121,6 +1196,11 @@ func main() {
 			h.Case(func(*rng.R) sexp.Node { return emit("cross", "execute", c.q, c.vars, "", 0, 0) })
 			h.Case(func(*rng.R) sexp.Node { return emit("cross", "validate", c.q, c.vars, "", 0, 0) })
 		}
+		// 3a. several operations sharing a variable-using fragment, with differently typed variables
+		for _, c := range multiOpProducts() {
+			c := c
+			h.Case(func(*rng.R) sexp.Node { return emit("multi-operation", "execute", c.q, c.vars, c.op, 0, 0) })
+		}
 		// 3b. explicit nulls for nullable arguments
 		for _, c := range nullArgProducts() {
 			c := c
@@ -1157,6 +1237,24 @@ func main() {
 					return emit("deep-"+k, "execute", deep(k, n), `{}`, "", 0, 0)
 				})
 			}
+		}
+		for _, k := range []string{"ladder", "ladder-leaf"} {
+			for _, n := range []int{1, 2, 10, 40, 48, 60} {
+				k, n := k, n
+				h.Case(func(*rng.R) sexp.Node { return emit("deep-"+k, "execute", deep(k, n), `{}`, "", 0, 0) })
+			}
+		}
+		// the same ladder through ParseAndValidate WITH the cost rule (what API.ServeGraphQL always
+		// does): the rule walks the expansion, 2^n fields for n fragments — n = 22 (1 KB of text) takes
+		// about 3.5 s, every two more levels four times as long.  22 levels must be done within 2 s
+		// (the goroutine the watchdog abandons ends soon after)
+		for _, n := range []int{2, 10, 16, 22} {
+			n := n
+			h.Case(func(*rng.R) sexp.Node {
+				watchdog = 2 * time.Second
+				defer func() { watchdog = 20 * time.Second }()
+				return emit("deep-ladder-cost", "validate", deep("ladder", n), `{}`, "", 0, 0)
+			})
 		}
 		// 4b. nesting depth of value literals, around the parser's limit and far beyond it
 		vdepths := []int{1, 10, 100, 249, 250, 251, 333, 334, 499, 500, 501, 999, 1000, 1001, 1500, 3000}
